@@ -10,9 +10,12 @@ MD5(user:realm:password)) -> spec/TurnTrace.tla evaluates the predicates on the 
 """
 import hashlib
 import json
+import os
 import random
 import struct
+import sys
 
+sys.path.insert(0, os.path.join(os.path.dirname(os.path.abspath(__file__)), ".."))
 import refstun
 import tracepar
 import vf
@@ -195,13 +198,13 @@ def pack(behs, rnd, keep):
 
 
 def validate(chk, execs, tag):
-    vf.write_ndjson(chk.path("behaviours%s.ndjson" % tag), execs)
-    raw = chk.path("raw%s.ndjson" % tag)
-    r = vf.qxv("turn", raw, in_path=chk.path("behaviours%s.ndjson" % tag), seed=chk.seed, tier=chk.tier, check=False)
+    vf.write_ndjson(chk.path("ext-turn-behaviours%s.ndjson" % tag), execs)
+    raw = chk.path("ext-turn-raw%s.ndjson" % tag)
+    r = vf.qxv("turn", raw, in_path=chk.path("ext-turn-behaviours%s.ndjson" % tag), seed=chk.seed, tier=chk.tier, check=False)
     vf.repair_truncated(raw)
     if r["rc"] != 0 and not r["sanitizer"]:
         raise vf.MachineryError("qxv turn exited %d:\n%s" % (r["rc"], r["stderr"][-2000:]))
-    trace = chk.path("trace%s.ndjson" % tag)
+    trace = chk.path("ext-turn-trace%s.ndjson" % tag)
     lines = annotate(raw, trace)
     # executions are independent (the monitor is re-initialised at every Reset): validate in up to 4 parallel chunks
     exs = tracepar.split_executions(lines)
@@ -211,13 +214,14 @@ def validate(chk, execs, tag):
     for ci in range(n):
         part = exs[ci * per:(ci + 1) * per]
         if part:
-            path = chk.path("trace%s-%d.ndjson" % (tag, ci))
+            path = chk.path("ext-turn-trace%s-%d.ndjson" % (tag, ci))
             vf.write_ndjson(path, [ln for ex in part for ln in ex])
             jobs.append(lambda path=path, ci=ci: vf.tlc_trace("TurnTrace.tla", "TurnTrace.cfg", path, tag="TurnTrace%s-%d" % (tag, ci), heap="3g"))
     sums = tracepar.par(jobs)
     s = {"cases": sum(x["cases"] for x in sums), "lines": sum(x["lines"] for x in sums), "ndiv": sum(x["ndiv"] for x in sums),
          "nviol": sum(x["nviol"] for x in sums), "nfailed": sum(x["nfailed"] for x in sums),
          "viol": [v for x in sums for v in x["viol"]], "divs": [d for x in sums for d in x["divs"]],
+         "dcases": [c for x in sums for c in x["dcases"]],
          "stats": {k: sum(x["stats"][k] for x in sums) for k in sums[0]["stats"]},
          "wall_s": max(x["wall_s"] for x in sums), "chunks": len(sums)}
     return r, s, trace
@@ -256,13 +260,15 @@ def run(chk):
     allp, sim, deep = strip(allp), strip(sim), strip(deep)
     gst["available"] = {"packed": len(packed), "maximal_effect": len(mx), "all_paths": len(allp), "simulate": len(sim), "deep": len(deep)}
     if quick:
-        # the quick tier replays a seeded sample; the thorough tier everything (simulation: the walks and a sample of
-        # their one-step deviations)
+        # the quick tier replays a seeded sample of the tour (short histories all); the thorough tier the whole tour
         packed = [b for b in packed if b["prefix"] <= 3 or rnd.random() < 0.5]
         mx = [b for b in mx if len(b["steps"]) <= 4 or rnd.random() < 0.15]
-        allp = [b for b in allp if rnd.random() < 0.25]
-    sim.sort(key=lambda b: -len(b["steps"]))
-    sim = sim[:150 if quick else 4000] + rnd.sample(sim[150 if quick else 4000:], min(150 if quick else 8000, max(0, len(sim) - (150 if quick else 4000))))
+    # beyond the tour: seeded samples in both tiers
+    allp = [b for b in allp if rnd.random() < (0.25 if quick else 0.4)]
+    deep = [b for b in deep if rnd.random() < 0.4]
+    sim.sort(key=lambda b: -len(b["steps"]))           # the walks themselves first, then some of their one-step deviations
+    nw = 150 if quick else 3000
+    sim = sim[:nw] + rnd.sample(sim[nw:], min(nw, max(0, len(sim) - nw)))
     nloops = sum(len(b["steps"]) - b["prefix"] for b in packed)
     rest = allp + deep + sim
     execs = []
@@ -288,6 +294,28 @@ def run(chk):
     if r["sanitizer"] or r["rc"] != 0:
         fails.append({"prop": "sanitizer", "what": "; ".join(r["sanitizer"][:3]) or "exit %d" % r["rc"], "history": []})
     # per predicate and kind of step: the shortest failing history, confirmed on a re-run of that history alone
+    # a packed execution that diverged stops being judged (the script no longer fits the client): its no-effect steps
+    # are replayed one by one, each behind the path alone
+    single = []
+    for cid in s["dcases"]:
+        b = by_id.get(cid)
+        if b and "prefix" in b:
+            for st in b["steps"][b["prefix"]:]:
+                single.append({"case": "u%d" % len(single), "pw": b["pw"], "steps": b["steps"][:b["prefix"]] + [st], "prefix": b["prefix"]})
+    if single:
+        single.sort(key=lambda b: len(b["steps"]))       # the shortest histories first; at most 6000 re-runs
+        single = single[:6000]
+        for i, b in enumerate(single):
+            b["case"] = "u%d" % i
+        by_id.update({b["case"]: b for b in single})
+        r1, s1, _ = validate(chk, single, "-single")
+        res["unpacked_executions"] = s1["cases"]
+        res["executions"] += s1["cases"]
+        res["trace_lines"] += s1["lines"]
+        s["viol"] += s1["viol"]
+        s["nviol"] += s1["nviol"]
+        s["nfailed"] += s1["nfailed"]
+    res["predicate_failures"] = s["nviol"]
     best = {}
     for v in s["viol"]:
         b = by_id.get(v["case"])
@@ -339,3 +367,29 @@ def run(chk):
         "responses from a foreign address that are otherwise authentic: RFC 5766 does not oblige the client either way; the "
         "monitor demands nothing after one (counted in stats.foreign)",
     ]
+
+
+def replay(path):
+    """python3 lib/ext/turn.py <behaviours.ndjson>: replay hand-written / recorded behaviours and print what the monitor says."""
+    chk = vf.Check("ext-turn-replay", "quick", 1, "model_checking")
+    vf.build()
+    execs = []
+    for i, b in enumerate(vf.read_ndjson(path)):
+        b.setdefault("case", "r%d" % i)
+        execs.append(b)
+    r, s, trace = validate(chk, execs, "")
+    by = {}
+    for v in sorted(s["viol"], key=lambda v: (v["case"], v["i"])):
+        by.setdefault(v["case"], []).append("%s at step %d (%s): %s" % (v["prop"], v["i"], label(next(
+            b for b in execs if b["case"] == v["case"])["steps"][v["i"]]), v["obs"]))
+    for b in execs:
+        print(b["case"], "pw" if b["pw"] else "wrong-pw", " ".join(label(x) for x in b["steps"]))
+        for ln in by.get(b["case"], ["  conforms"]):
+            print("   ", ln)
+    print("executions %d, diverged %d, predicate failures %d, sanitizer %s" % (s["cases"], s["ndiv"], s["nviol"], r["sanitizer"][:1]))
+    print("trace:", os.path.relpath(trace, vf.VERIF))
+    return 1 if s["nviol"] else 0
+
+
+if __name__ == "__main__":
+    sys.exit(replay(sys.argv[1]))
